@@ -17,6 +17,7 @@
 import SimVerif.Lemmas.SocksSafe
 import SimVerif.Lemmas.SocksNeg
 import SimVerif.Lemmas.SocksRelay
+import SimVerif.Lemmas.SocksStreamSeg
 
 namespace SimVerif
 
@@ -156,6 +157,39 @@ theorem C17_read_ends_when_full (c : Conn) (off need got : Nat) (d : Bytes) (c' 
     (h : exactStep c off need got .ok d = .ok (c', total, done)) :
     total = got + d.length ∧ (done = true ↔ (d.length = 0 ∨ got + d.length ≥ need)) :=
   exact_done_iff c off need got d c' total done h
+
+
+/-- **Segmentation independence of the WHOLE negotiation over an abstract client byte stream**
+    (`SimVerif/SocksStream.lean`; given C05): the client's bytes `bs` reach the proxy in order,
+    one read completion at a time, each completion carrying ANY non-empty piece of what is unread
+    (the schedule `ks`: completion j carries `min (ks[j]+1) (region left) (unread)` bytes). After
+    any such schedule, letting the negotiation run to its end gives exactly the state that
+    running it to its end directly gives: same buffers, same counters, same unread rest of the
+    stream (the payload the relay will carry), same actions (method reply; then close, connect,
+    bind, UDP relay or lookup). The outcome of a negotiation is a function of the byte stream,
+    not of its segmentation. -/
+theorem C17_stream_segmentation (ver : Int) (flags : Nat) (cnt : List Int) (hc : cnt.length = 3)
+    (bs : Bytes) (ks : List Nat) (s0 : NS) (h0 : NS.init {} ver flags cnt bs = .ok s0) :
+    (match s0.feed {} ks with
+     | .error e => .error e
+     | .ok s1 => s1.settle {} s1.fuel) = s0.settle {} s0.fuel :=
+  stream_segmentation ver flags cnt hc bs ks s0 h0
+
+/-- … no schedule makes the negotiation fault, and the settled state is final: no read in
+    progress, or nothing left to read (the fuel `|unread| + 1` suffices) -/
+theorem C17_stream_no_fault (ver : Int) (flags : Nat) (cnt : List Int) (hc : cnt.length = 3)
+    (bs : Bytes) (ks : List Nat) :
+    ∃ s0, NS.init {} ver flags cnt bs = .ok s0 ∧ ∃ s1, s0.feed {} ks = .ok s1 :=
+  stream_no_fault ver flags cnt hc bs ks
+
+theorem C17_stream_settles (ver : Int) (flags : Nat) (cnt : List Int) (hc : cnt.length = 3)
+    (bs : Bytes) (s0 : NS) (h0 : NS.init {} ver flags cnt bs = .ok s0) :
+    ∃ t, s0.settle {} s0.fuel = .ok t ∧ (t.rd = none ∨ t.rest = []) :=
+  stream_settles ver flags cnt hc bs s0 h0
+
+/-- non-vacuity: SOCKS5 CONNECT 10.0.2.1:8080 + 2 payload bytes, fed byte by byte and all at
+    once: counted once, payload left unread, last action = connect -/
+example : demoSettled [0, 0, 0, 0, 0, 0, 0, 0, 0, 0, 0, 0, 0] = true ∧ demoSettled [] = true := by decide
 
 /-! ### 3. relay transparency, UDP ASSOCIATE -/
 
